@@ -159,8 +159,9 @@ type script struct {
 	NilEmpty bool    `json:"nil_empty"` // empty batches are nil slices (as mcToTriangles returns) rather than empty ones
 	// EachCloses: with several producers, every producer flushes with Close when IT has finished (while the
 	// others may still be writing) in addition to the final Close after all have finished
-	EachCloses bool `json:"each_closes,omitempty"`
-	Sliver     int  `json:"sliver,omitempty"` // triangles only: every Sliver-th item is a needle (see sliverOf); 0: none
+	EachCloses bool   `json:"each_closes,omitempty"`
+	Path       string `json:"-"`                // output path chosen by the caller (concurrent sinks); "" = tmpPath
+	Sliver     int    `json:"sliver,omitempty"` // triangles only: every Sliver-th item is a needle (see sliverOf); 0: none
 }
 
 func (s *script) totals() (bases []int, total int) {
@@ -286,18 +287,43 @@ func (r *scripted2) Render(_ sdf.SDF2, out sdf.Line2Writer) {
 
 var devnull, _ = os.OpenFile(os.DevNull, os.O_WRONLY, 0)
 
-// the To* functions print "rendering <path>" for every file.
+// the To* functions print "rendering <path>" for every file. Calls may overlap (concurrent sinks): the first
+// one in redirects stdout, the last one out restores it.
+var (
+	quietMu    sync.Mutex
+	quietDepth int
+	quietSaved *os.File
+)
+
 func quiet(f func()) {
-	old := os.Stdout
-	if devnull != nil {
+	quietMu.Lock()
+	if quietDepth == 0 && devnull != nil {
+		quietSaved = os.Stdout
 		os.Stdout = devnull
 	}
-	defer func() { os.Stdout = old }()
+	quietDepth++
+	quietMu.Unlock()
+	defer func() {
+		quietMu.Lock()
+		quietDepth--
+		if quietDepth == 0 && quietSaved != nil {
+			os.Stdout = quietSaved
+			quietSaved = nil
+		}
+		quietMu.Unlock()
+	}()
 	f()
 }
 
 var caseDir string
 var caseSeq int
+
+func pathFor(s *script, ext string) string {
+	if s.Path != "" {
+		return s.Path
+	}
+	return tmpPath(ext)
+}
 
 func tmpPath(ext string) string {
 	if caseDir == "" {
@@ -358,7 +384,7 @@ func run3(s *script) *delivery {
 			d.addTri(triVals(t))
 		}
 	case "ToSTL":
-		path := tmpPath("stl")
+		path := pathFor(s, "stl")
 		quiet(func() { render.ToSTL(nil, path, r) })
 		f, err := fmtread.ReadSTL(path)
 		if err != nil {
@@ -373,7 +399,7 @@ func run3(s *script) *delivery {
 			d.noteKey = "count-field"
 		}
 	case "To3MF":
-		path := tmpPath("3mf")
+		path := pathFor(s, "3mf")
 		quiet(func() { render.To3MF(nil, path, r) })
 		m, err := fmtread.Read3MF(path)
 		if err != nil {
@@ -446,7 +472,7 @@ func run2(s *script) *delivery {
 	r := &scripted2{s: s}
 	switch s.Sink {
 	case "ToDXF":
-		path := tmpPath("dxf")
+		path := pathFor(s, "dxf")
 		quiet(func() { render.ToDXF(nil, path, r) })
 		f, err := fmtread.ReadDXF(path)
 		if err != nil {
@@ -465,7 +491,7 @@ func run2(s *script) *delivery {
 			d.addSeg(l.End[0]-l.Start[0], l.End[1]-l.Start[1], what)
 		}
 	case "ToSVG":
-		path := tmpPath("svg")
+		path := pathFor(s, "svg")
 		quiet(func() { render.ToSVG(nil, path, r) })
 		f, err := fmtread.ReadSVG(path)
 		if err != nil {
